@@ -6,22 +6,24 @@ import sys
 import os
 
 patch, pid = os.path.abspath(sys.argv[1]), sys.argv[2]
+REPO = os.environ.get("SEED_REPO", "/repo")      # a scratch worktree of /repo may be used (the harness Cargo.toml of SEED_VERIF must point at it)
+VERIF = os.environ.get("SEED_VERIF", os.path.dirname(os.path.dirname(os.path.abspath(__file__))))
 tier = sys.argv[3] if len(sys.argv) > 3 else "quick"
-st = subprocess.run(["git", "-C", "/repo", "status", "--porcelain"], capture_output=True, text=True).stdout.strip()
+st = subprocess.run(["git", "-C", REPO, "status", "--porcelain"], capture_output=True, text=True).stdout.strip()
 if st:
     print("refusing: /repo working tree is not clean:\n" + st)
     sys.exit(2)
-r = subprocess.run(["git", "-C", "/repo", "apply", patch], capture_output=True, text=True)
+r = subprocess.run(["git", "-C", REPO, "apply", patch], capture_output=True, text=True)
 if r.returncode != 0:
     print("patch does not apply:", r.stderr)
     sys.exit(2)
 try:
-    r = subprocess.run(["./check", pid, "--tier", tier], cwd="/verif", capture_output=True, text=True, timeout=3600)
+    r = subprocess.run(["./check", pid, "--tier", tier], cwd=VERIF, env=dict(os.environ, VERIF_REPO=REPO), capture_output=True, text=True, timeout=3600)
     lines = [l for l in r.stdout.splitlines() if l.startswith(("VIOLATION", "KNOWN-FINDING", "   proof obligation broken", "S3", "S4", "CHECK ERROR")) or l.startswith(pid)]
     print("\n".join(lines[-25:]))
     print("exit code:", r.returncode)
 finally:
-    subprocess.run(["git", "-C", "/repo", "checkout", "--", "."], check=True)
-    subprocess.run(["git", "-C", "/repo", "clean", "-fdq", "--", "src", "examples", "tests"], check=False)
-    st = subprocess.run(["git", "-C", "/repo", "status", "--porcelain"], capture_output=True, text=True).stdout.strip()
+    subprocess.run(["git", "-C", REPO, "checkout", "--", "."], check=True)
+    subprocess.run(["git", "-C", REPO, "clean", "-fdq", "--", "src", "examples", "tests"], check=False)
+    st = subprocess.run(["git", "-C", REPO, "status", "--porcelain"], capture_output=True, text=True).stdout.strip()
     print("repo restored:", "clean" if not st else st)
